@@ -89,22 +89,43 @@ def readback(value, result, by_source, pynames, path="$", out=None, depth=0):
                 out.append({"at": f"{path}.{key}", "problem": "member-invented"})
             return out
         if isinstance(result, dict):
-            used = set()
+            # Each input member must be found under its JSON name or under the Python name of a property
+            # with that JSON name; the assignment must be injective.  The governing element is not known
+            # here, so candidate names come from the whole tree: resolve the assignment by matching
+            # (fewest candidates first, with backtracking), not greedily.
+            options = {}
             for k, v in value.items():
                 cands = [k] + sorted(by_source.get(k, ()))
-                best = None
-                for c in cands:
-                    if c in result and c not in used:
-                        trial = readback(v, result[c], by_source, pynames, f"{path}.{k}", [], depth + 1)
-                        if not trial:
-                            best = c
-                            break
-                if best is None:
-                    present = [c for c in cands if c in result]
-                    out.append({"at": f"{path}.{k}",
-                                "problem": "member-altered" if present else "member-dropped"})
-                else:
-                    used.add(best)
+                options[k] = [c for c in cands if c in result and not readback(
+                    v, result[c], by_source, pynames, f"{path}.{k}", [], depth + 1)]
+
+            def assign(keys, taken):
+                if not keys:
+                    return {}
+                k = keys[0]
+                for c in options[k]:
+                    if c in taken:
+                        continue
+                    rest = assign(keys[1:], taken | {c})
+                    if rest is not None:
+                        return {k: c, **rest}
+                return None
+
+            order = sorted(value, key=lambda k: len(options[k]))
+            matching = assign(order, frozenset()) if len(order) <= 12 else None
+            used = set()
+            if matching is not None:
+                used = set(matching.values())
+            else:
+                # report the members that cannot be placed at all / compete for one slot
+                for k in order:
+                    free = [c for c in options[k] if c not in used]
+                    if free:
+                        used.add(free[0])
+                    else:
+                        present = [c for c in [k] + sorted(by_source.get(k, ())) if c in result]
+                        out.append({"at": f"{path}.{k}",
+                                    "problem": "member-altered" if present else "member-dropped"})
             for key, r in result.items():
                 if key in used:
                     continue
